@@ -25,13 +25,14 @@ ASSUMPTIONS = [
     "create_gantt_chart_frames is driven with a stub Figure (savefig is a no-op); its replay loop is the real code",
 ]
 BOUNDS = {
-    "quick": "K3 complete; K4[seed%16::16]; probes P (up to 10 ops) - all histories, every prefix",
+    "quick": "K3 complete; K3r (flexible machine lists in descending order); K4[seed%16::16]; probes P (up to 10 ops) - all histories, every prefix",
     "thorough": "K3, K4 complete; M3; NF5[seed%8::8]; probes P; TLC cross-check on 3 instances (every edge replayed)",
 }
 
 
 def cases(tier, seed):
     out = [("tree", spec) for spec in F.K3()]
+    out += [("tree", spec) for spec in F.K3r()]
     if tier == "quick":
         out += [("tree", s) for s in F.sliced(F.K4(), seed % 16, 16)]
         out += [("tree", s) for s in F.P_ALL]
